@@ -518,8 +518,7 @@ Conversion<Unit::TransportEnergyConsumption, Unit::TransportEnergyConsumption::I
 }
 
 template <typename NumericType>
-inline const std::map<Unit::TransportEnergyConsumption,
-                      std::function<void(NumericType* values, const std::size_t size)>>
+inline const ConversionTable<Unit::TransportEnergyConsumption, NumericType>
     MapOfConversionsFromStandard<Unit::TransportEnergyConsumption, NumericType>{
       {Unit::TransportEnergyConsumption::JoulePerMetre,
        Conversions<Unit::TransportEnergyConsumption,
@@ -591,8 +590,7 @@ inline const std::map<Unit::TransportEnergyConsumption,
 };
 
 template <typename NumericType>
-inline const std::map<Unit::TransportEnergyConsumption,
-                      std::function<void(NumericType* const values, const std::size_t size)>>
+inline const ConversionTable<Unit::TransportEnergyConsumption, NumericType>
     MapOfConversionsToStandard<Unit::TransportEnergyConsumption, NumericType>{
       {Unit::TransportEnergyConsumption::JoulePerMetre,
        Conversions<Unit::TransportEnergyConsumption,
